@@ -184,6 +184,17 @@ impl varlink::Interface for ScriptIface {
                 "x" => {
                     return Err(varlink::context!(varlink::ErrorKind::Generic));
                 }
+                // the service process ends right here (after whatever it has replied so far): a Quit / StopServing method
+                "q" => std::process::exit(0),
+                // the same, while a helper process of the service still holds the connection for two seconds (the peer sees no
+                // hang-up yet; only the exit of the service process itself tells its parent that it is gone)
+                "qh" => unsafe {
+                    if libc::fork() == 0 {
+                        libc::sleep(2);
+                        libc::_exit(0);
+                    }
+                    std::process::exit(0)
+                },
                 "inv" => call.reply_invalid_parameter("p".into())?,
                 "mnf" => call.reply_method_not_found(full.clone())?,
                 "mni" => call.reply_method_not_implemented(full.clone())?,
